@@ -180,6 +180,7 @@ pub enum ParserErrorType {
     Unknown,
     ReachedEndOfTokens,
     TooManyTokens,
+    TooDeepExpression(usize),
     IntConvertError,
     FloatConvertError,
     AlreadyHasDot,
@@ -226,6 +227,7 @@ impl std::fmt::Display for ParserErrorType {
             ParserErrorType::Unknown => { write!(f, "Unknown error") }
             ParserErrorType::ReachedEndOfTokens => { write!(f, "Reached end of tokens") }
             ParserErrorType::TooManyTokens => { write!(f, "Too many tokens") }
+            ParserErrorType::TooDeepExpression(max_depth) => { write!(f, "Expression is nested deeper than {} levels", max_depth) }
             ParserErrorType::IntConvertError => { write!(f, "Failed to parse integer") }
             ParserErrorType::FloatConvertError => { write!(f, "Failed to parse float") }
             ParserErrorType::AlreadyHasDot => { write!(f, "The number already has a dot") }
